@@ -18,7 +18,7 @@ from ..model import datadef
 
 ID = 'C09'
 LEVEL = 'exploration'
-RULE = ('case = generated program (quick 450 x 40 / thorough 5100 x 60 data statements) for one of 15 targets; a statement is drawn from the target\'s '
+RULE = ('case = generated program (quick 450 x 40 / thorough 5100 x 60 data statements) for one of 15 targets, plus directed big-statement programs per statement kind and multi-target programs (CPU statements inside one source: all ordered pairs and A>B>A of 6502/6800/6809, random sequences of 10 byte-granular targets); a statement is drawn from the target\'s '
         'documented pseudo-ops with arguments from boundary pools (signed/unsigned field limits +-1, beyond 32 bit, float subnormal/halfway/'
         'carry/underflow/max, strings with escapes through CHARSET, [n] repeats, nested DUP, ?) under random PADDING/BIGENDIAN/PACKING/CHARSET '
         'settings; distinct = distinct (target, statement kind, argument-class set, settings, verdict class); every counted statement was '
@@ -43,7 +43,7 @@ MANIFEST = dict(
          'and every argument outside -2^(n-1)..2^n-1 (including values whose low 32 bits alone would fit) and every mix of constants with ? was rejected with an error.',
     note='Not covered because the manual is silent: encoding of 0.0 in the 80/96-bit formats (the golden images pin exponent $3C00), floats between the assembler\'s '
          'limit constants and the IEEE overflow threshold, integer arguments of DQ/DT and of float DC sizes, strings in WORD/LONG/ADR/DW.., BYTE on TMS320C2x, DSP56000 strings and '
-         'multi-argument DC, decimal DC.P, odd-address word reservations under PADDING, default state of PADDING outside the 680x0.')
+         'multi-argument DC, decimal DC.P, non-zero word reservations at odd addresses under PADDING, the alignment form DS.x 0 for sizes other than W, default state of PADDING outside the 680x0.')
 REGISTERED = True
 
 CPUS = sorted(datadef.TARGETS)
@@ -64,7 +64,22 @@ def plan(tier, seed):
             for kind in sorted(datadef.Gen.DIRECTED.get(fam, {})):
                 for r in range(reps):
                     cases.append({'cpu': cpu, 'n': 10, 'big': kind, 'fam': fam})
+    # multi-target programs: CPU statements in the middle of one source (state kept between targets inside one
+    # assembler run).  All ordered pairs of the 65xx/68xx targets (both byte orders, both orders of appearance,
+    # also A -> B -> A), plus random pairs/triples of the byte-granular targets.
+    m8 = ['6502', '6800', '6809']
+    reps = 2 if tier == 'quick' else 25
+    for a in m8:
+        for b in m8:
+            if a != b:
+                for r in range(reps):
+                    cases.append({'cpu': a, 'then': [b] if r % 2 == 0 else [b, a], 'n': 12})
+    for i in range(30 if tier == 'quick' else 400):
+        cases.append({'cpu': None, 'then': 'random', 'n': 12})
     return cases
+
+
+SWITCHABLE = ['68000', '6809', '6800', '6502', 'z80', '8080', '8086', '8051', 'msp430', 'tms9900']
 
 
 def line_events(trace):
@@ -120,13 +135,23 @@ def span_class(it, idx):
 def run_case(case, ctx):
     out = ctx.out
     rng = ctx.rng
-    tgt = datadef.TARGETS[case['cpu']]
+    then = case.get('then') or []
+    cpu = case['cpu']
+    if then == 'random':
+        cpu = rng.choice(SWITCHABLE)
+        then = [rng.choice(SWITCHABLE) for _ in range(rng.choice([1, 2]))]
+    tgt = datadef.TARGETS[cpu]
     gen = datadef.Gen(rng, tgt)
-    items = gen.program(case['n'], big=case.get('big'))
+    items = gen.program(case['n'], big=case.get('big'), switch_to=then)
+    progname = '>'.join([cpu] + list(then))
     good = [it for it in items if it.expect is None or it.expect == 'ok']
     bad = [it for it in items if it.expect is None or (it.expect or '').startswith('err')]
-    out.sample = {'cpu': tgt.cpu, 'statements': [it.text.replace('\t', ' ') for it in items if it.expect][:10]}
-    out.sets['targets'].add(tgt.cpu)
+    out.sample = {'cpu': progname, 'statements': [it.text.replace('\t', ' ') for it in items if it.expect][:10]}
+    for c in [cpu] + list(then):
+        out.sets['targets'].add(c)
+    if then:
+        out.sets['target_sequences'].add(progname)
+        out.obs['multi_target_programs'] += 1
 
     # ------------------------------------------------------------------ V: acceptable statements
     src = ''.join('\t%s\n' % it.text for it in good)
@@ -153,14 +178,14 @@ def run_case(case, ctx):
             continue
         tag = '%s.%s' % (it.fam, it.kind)
         out.obs['statements_accept_expected'] += 1
-        out.sets['kinds'].add('%s:%s' % (tgt.cpu, it.kind))
+        out.sets['kinds'].add('%s:%s' % (it.cpu, it.kind))
         for c in it.classes():
             out.sets['argument_classes'].add(c.replace('+dup+dup', '+dup'))
         errs = [d for d in diag.get(ln, []) if d[0] != 'W']
         for d in diag.get(ln, []):
             if d[0] == 'W':
                 out.sets['warnings_seen'].add(d[1])
-        where = '%s line %d `%s` [%s]' % (tgt.cpu, ln, it.text.replace('\t', ' '), it.flags)
+        where = '%s line %d `%s` [%s]' % (progname if then else it.cpu, ln, it.text.replace('\t', ' '), it.flags)
         if errs:
             out.violate('%s:valid-statement-rejected:E%s' % (tag, errs[0][1]),
                         '%s: rejected with %s although every argument is within the documented range (argument classes %s)'
@@ -183,7 +208,7 @@ def run_case(case, ctx):
                 out.violate('%s:reservation-emits-bytes' % tag, '%s: emitted %s at %x, expected no bytes and an advance of %d units'
                             % (where, got[2].hex(), got[0], it.reserve))
                 break
-            out.sigs.add('%s|%s|%s|%s|reserve' % (tgt.cpu, it.kind, ','.join(it.classes()), it.flags))
+            out.sigs.add('%s|%s|%s|%s|reserve' % (it.cpu + ('@2' if then and it.cpu != cpu else ''), it.kind, ','.join(it.classes()), it.flags))
             prev = tag          # the generator never puts two reservations in a row
             pending = True
             continue
@@ -224,7 +249,7 @@ def run_case(case, ctx):
                         % (where, render(exp), data.hex(), i, cls))
         out.obs['statements_compared'] += 1
         out.obs['bytes_compared'] += sum(1 for b in exp if b is not None)
-        out.sigs.add('%s|%s|%s|%s|ok' % (tgt.cpu, it.kind, ','.join(it.classes()), it.flags))
+        out.sigs.add('%s|%s|%s|%s|ok' % (it.cpu + ('@2' if then and it.cpu != cpu else ''), it.kind, ','.join(it.classes()), it.flags))
         prev = tag
         pending = False
     else:
@@ -255,13 +280,13 @@ def run_case(case, ctx):
         if it.expect is None:
             continue
         tag = '%s.%s' % (it.fam, it.kind)
-        where = '%s line %d `%s` [%s]' % (tgt.cpu, ln, it.text.replace('\t', ' '), it.flags)
+        where = '%s line %d `%s` [%s]' % (progname if then else it.cpu, ln, it.text.replace('\t', ' '), it.flags)
         errs = [d for d in diag.get(ln, []) if d[0] != 'W']
         out.obs['statements_reject_expected'] += 1
-        out.sets['kinds'].add('%s:%s' % (tgt.cpu, it.kind))
+        out.sets['kinds'].add('%s:%s' % (it.cpu, it.kind))
         for d in errs:
             out.sets['error_numbers_seen'].add(d[1])
-        out.sigs.add('%s|%s|%s|%s|reject' % (tgt.cpu, it.kind, it.errcls, it.flags))
+        out.sigs.add('%s|%s|%s|%s|reject' % (it.cpu, it.kind, it.errcls, it.flags))
         out.sets['argument_classes'].add('reject:' + it.errcls)
         if errs:
             out.obs['rejections_observed'] += 1
